@@ -31,11 +31,27 @@ PROTO_FILES = ["descriptor.proto", "compiler/plugin.proto", "wrappers.proto", "t
 SCALAR_KIND = {"double", "float", "int32", "int64", "uint32", "uint64", "sint32", "sint64", "fixed32", "fixed64", "sfixed32", "sfixed64", "bool", "string", "bytes"}
 
 
-def _tuple_members(mod, name: str) -> List[str]:
+def _tuple_members(mod, name: str, depth: int = 0) -> List[str]:
+    def members(v: ast.AST) -> Optional[List[str]]:
+        if isinstance(v, (ast.Tuple, ast.List, ast.Set)):
+            return [e.attr for e in v.elts if isinstance(e, ast.Attribute)]
+        if isinstance(v, ast.Call) and isinstance(v.func, ast.Name) and v.func.id in ("frozenset", "tuple", "set", "list") and len(v.args) == 1 and not v.keywords:
+            return members(v.args[0])
+        if isinstance(v, ast.BinOp) and isinstance(v.op, (ast.Add, ast.BitOr)):
+            a, b = members(v.left), members(v.right)
+            return None if a is None or b is None else a + b
+        if isinstance(v, ast.Name) and depth < 4:
+            try:
+                return _tuple_members(mod, v.id, depth + 1)
+            except AnalysisError:
+                return None
+        return None
+
     for st in mod.tree.body:
-        if isinstance(st, ast.Assign) and len(st.targets) == 1 and isinstance(st.targets[0], ast.Name) and st.targets[0].id == name \
-                and isinstance(st.value, (ast.Tuple, ast.List)):
-            return [e.attr for e in st.value.elts if isinstance(e, ast.Attribute)]
+        if isinstance(st, ast.Assign) and len(st.targets) == 1 and isinstance(st.targets[0], ast.Name) and st.targets[0].id == name:
+            m = members(st.value)
+            if m is not None:
+                return m
     raise AnalysisError(f"models.py: table {name} vanished")
 
 
@@ -94,7 +110,31 @@ def rule_P2(ctx) -> None:
     # field_type: TYPE_X -> x must name an existing betterproto.x_field; each *_field passes TYPE_X and forwards its parameters
     ft = models.func("FieldCompiler.field_type")
     src = ast.unparse(ft)
-    if ".name.lower()" in src.replace("\n", "") and "replace('type_', '')" in src:
+    # by evaluation: with the descriptor type's member name bound to each TYPE_X in turn, field_type returns "x" (the name the
+    # `x_field` helper of the runtime is looked up under) - however the prefix is taken off
+    by_eval = None
+    try:
+        from .. import concrete as _conc
+        from ..sym import from_ast as _from_ast
+        key_ = _from_ast(ast.parse("FieldDescriptorProtoType(self.proto_obj.type).name", mode="eval").body)
+        wrong_ = []
+        for m_ in sorted(members):
+            ps_ = [p_ for p_ in Interp(models, bindings={key_: m_}, fork_ifexp=True).run(ft) if p_.outcome == "return" and p_.value is not None]
+            if len(ps_) != 1:
+                raise ValueError("paths")
+            got_ = _conc.ev(ps_[0].value, {})
+            if got_ != m_[len("TYPE_"):].lower():
+                wrong_.append((m_, got_))
+        by_eval = wrong_
+    except Exception:
+        by_eval = None
+    if by_eval == []:
+        ctx.proved("P2", "field_type:derivation", models.loc(ft), f"{len(members)} descriptor types evaluated")
+    elif by_eval:
+        ctx.refuted("P2", "field_type:derivation", f"{by_eval[0][0]}->{by_eval[0][1]}", models.loc(ft),
+                    f"field_type yields {by_eval[0][1]!r} for {by_eval[0][0]}: the generated call `betterproto.{by_eval[0][1]}_field(..)` does not name the helper of that type",
+                    f"a field of type {by_eval[0][0]}")
+    elif ".name.lower()" in src.replace("\n", "") and "replace('type_', '')" in src:
         ctx.proved("P2", "field_type:derivation", models.loc(ft))
     else:
         ctx.inconclusive("P2", "field_type:derivation", "field_type is no longer `Type(...).name.lower().replace('type_', '')`", models.loc(ft))
